@@ -103,12 +103,16 @@ def specUnrecognizedFlag (fs : Fields) : Bool :=
   let flags := specFlags fs
   if flags.testBit 0 then 8 ≤ flags else flags != 0
 
+/-- 1 if the list has a first value and it satisfies `ok`, else 0 -/
+def oneIf (ok : Nat → Bool) (l : List Nat) : Nat :=
+  match l.head? with | some v => if ok v then 1 else 0 | none => 0
+
 /-- how many leading values of an even tag `decipher` consumes -/
 def consumed (n : Nat) (fs : Fields) (t : Nat) : Nat :=
   let flags := specFlags fs
   let e := flags.testBit 0
   let te := e && flags.testBit 1
-  let one (ok : Nat → Bool) : Nat := match (vals t fs).head? with | some v => if ok v then 1 else 0 | none => 0
+  let one (ok : Nat → Bool) : Nat := oneIf ok (vals t fs)
   if t = 2 then one (fun _ => true)
   else if t = 4 ∨ t = 6 then (if e then one (fun _ => true) else 0)
   else if t = 8 ∨ t = 10 then (if te then one (fun _ => true) else 0)
